@@ -360,20 +360,20 @@ def main_wrapper(fn):
         sys.exit(2)
 
 
-def builder_cfg(chk, name, maxcalls, gen, rich):
+def builder_cfg(chk, name, maxcalls, gen, rich, maxdev=1):
     p = chk.path(name + ".cfg")
     with open(p, "w") as f:
-        f.write("SPECIFICATION MCSpec\nCONSTANTS\n  P = 31723\n  MaxCalls = %d\n  GEN = %s\n  Rich = %s\n"
-                % (maxcalls, "TRUE" if gen else "FALSE", "TRUE" if rich else "FALSE"))
+        f.write("SPECIFICATION MCSpec\nCONSTANTS\n  P = 31723\n  MaxCalls = %d\n  GEN = %s\n  Rich = %s\n  MaxDev = %d\n"
+                % (maxcalls, "TRUE" if gen else "FALSE", "TRUE" if rich else "FALSE", maxdev))
         f.write("INVARIANT MCInv\nINVARIANT Emit\nCHECK_DEADLOCK FALSE\n")
         if not gen:
             f.write("VIEW View\n")
     return p
 
 
-def generate_behaviours(chk, maxcalls, rich, name="gen"):
+def generate_behaviours(chk, maxcalls, rich, name="gen", maxdev=1):
     """TLC enumerates MC_Builder to the given depth and prints one behaviour (program + expectations) per state."""
-    r = tlc_mc(chk, "MC_Builder.tla", builder_cfg(chk, name, maxcalls, True, rich), workers=8)
+    r = tlc_mc(chk, "MC_Builder.tla", builder_cfg(chk, name, maxcalls, True, rich, maxdev), workers=8, timeout=3000)
     behs = behaviours_from(r["out"])
     if not behs:
         raise ToolError("no behaviours generated")
